@@ -701,8 +701,7 @@ class _ExtractMethodParts(ast.RopeNodeVisitor):
         if self.info.global_ and not self.info.make_global:
             return list(
                 self.info_collector.read
-                & self.info_collector.postread
-                & self.info_collector.written
+                & (self.info_collector.written | self.info_collector.maybe_written)
             )
         if not self.info.one_line:
             result = self.info_collector.prewritten & self.info_collector.read
